@@ -273,6 +273,23 @@ func genC11(e *emitter, tier string) {
 			e.emit(opCase("constant", "Constant", []Attr{{Name: "value", Type: "t", T: seqT(dt, s, func(i int) float64 { return float64(i % 2) })}}, []*TJ{}, nil))
 		}
 	}
+	// the extremes of the narrow integer types (stored in the wider int32_data / uint64_data fields or as raw
+	// bytes): every value of the element type's range is a value, up to the last one
+	for _, ex := range []struct {
+		dt string
+		v  []float64
+	}{{"u16", []float64{65535, 32768, 32767, 40000}}, {"i16", []float64{-32768, 32767}}, {"u8", []float64{255, 128, 127}}, {"i8", []float64{-128, 127}},
+		{"u32", []float64{4294967295, 2147483648}}, {"i32", []float64{-2147483648, 2147483647}}, {"bool", []float64{1, 0, 1}}} {
+		for _, raw := range []bool{false, true} {
+			t := vals(ex.dt, []int{len(ex.v)}, ex.v...)
+			e.emit(opCase("constant-extremes", "Constant", []Attr{{Name: "value", Type: "t", T: t, Raw: raw}}, []*TJ{}, nil))
+			if ex.dt != "bool" {
+				e.emit(opCase("constant-extremes", "ConstantOfShape", []Attr{{Name: "value", Type: "t", T: vals(ex.dt, []int{1}, ex.v[0]), Raw: raw}}, []*TJ{idxT("i64", []int{2}, []int{2, 2})}, nil))
+			}
+		}
+	}
+	// tensor names that differ only in case or in surrounding white space are DIFFERENT tensors
+	e.emit(graphCase("names-differ-in-case", namesDifferInCaseGraph(), []NamedT{{"x", vals("f32", []int{2}, 1, 2)}, {"X", vals("f32", []int{2}, 5, 6)}}))
 	// several Constant nodes in ONE graph (node names are optional and need not be unique), every attribute
 	// form, each read by another node; then ConstantOfShape and Cast on them
 	{
@@ -304,4 +321,22 @@ func genC11(e *emitter, tier string) {
 	e.emit(opCase("constant-empty", "Constant", []Attr{{Name: "value_ints", Type: "ints"}}, []*TJ{}, nil))
 	e.emit(opCase("constant-empty", "Constant", []Attr{{Name: "value_floats", Type: "floats"}}, []*TJ{}, nil))
 	e.emit(opCase("constant-empty", "Constant", []Attr{{Name: "value", Type: "i"}}, []*TJ{}, nil))
+}
+
+
+// namesDifferInCaseGraph: Constant nodes, inputs and intermediate tensors whose names are equal after trimming /
+// lower-casing (k, K, " k"; x, X; y, Y): a name is an exact byte string.
+func namesDifferInCaseGraph() *GraphJ {
+	return &GraphJ{Inputs: []VInfoJ{{Name: "x", Dt: "f32", Dims: []any{2}}, {Name: "X", Dt: "f32", Dims: []any{2}}},
+		Inits: []InitJ{{Name: "w", T: vals("f32", []int{2}, 10, 20)}, {Name: "W", T: vals("f32", []int{2}, 100, 200)}},
+		Nodes: []NodeJ{
+			{Op: "Constant", Attrs: []Attr{{Name: "value_float", Type: "f", F: 2}}, Outs: []string{"k"}},
+			{Op: "Constant", Attrs: []Attr{{Name: "value_ints", Type: "ints", Ints: []int64{2, 3}}}, Outs: []string{"K"}},
+			{Op: "Constant", Attrs: []Attr{{Name: "value_floats", Type: "floats", Fs: []float64{7, 8}}}, Outs: []string{" k"}},
+			{Op: "Add", Ins: []string{"x", "w"}, Outs: []string{"y"}},
+			{Op: "Add", Ins: []string{"X", "W"}, Outs: []string{"Y"}},
+			{Op: "Mul", Ins: []string{"y", " k"}, Outs: []string{"z"}},
+			{Op: "Cast", Attrs: []Attr{{Name: "to", Type: "i", I: 11}}, Ins: []string{"k"}, Outs: []string{"kd"}},
+			{Op: "Sub", Ins: []string{"Y", "y"}, Outs: []string{"d"}},
+		}, Outputs: []string{"k", "K", " k", "y", "Y", "z", "kd", "d"}}
 }
